@@ -34,6 +34,23 @@ CHECKS = [
           "mode the stated relations between Analyzer, Sampler, QuickSampler and Simulator are evaluated; every side is "
           "computed by the library and only combined by the harness; no object may refuse a circuit the others accept.",
   "note": "<=2 visible photons; predicates restricted to indexing/iteration (Analyzer/QuickSampler pass lists)"},
+ {"id": "C06", "engine": "E1", "ref": "DESIGN.md §3 C06",
+  "technique": "bounded exhaustive enumeration of a source-parameter grid x inputs x circuits x backends vs a generative reference",
+  "text": "Every point of a grid over brightness, purity, indistinguishability and threshold (boundaries + generic points, "
+          "denser than the polynomial degree) x bunched/gapped/vacuum/heralded inputs x lossless/lossy/heralded circuits "
+          "x both backends: physical-class input statistics and the end-to-end output distribution are compared with a "
+          "generative model written from the statement (per-photon outcomes; convolution of independent boson-sampling "
+          "distributions per distinguishability group); plus thresholding rule, ideal and classical limits, g2, HOM.",
+  "note": "<=4 requested photons; finite grid stands for the continuous ranges; a threshold removing every input is left out"},
+ {"id": "C07", "engine": "E3", "ref": "DESIGN.md §3 C07",
+  "technique": "exhaustive enumeration of every answer of every random source (choice-point DFS with exact weights) on the real sampling code",
+  "text": "np.random.default_rng, detector random()/seed() and the samplers' random() are replaced by scripted oracles; "
+          "all answer sequences are executed, giving the exact law the code implements for sample_N_inputs (N=1, N=2), "
+          "sample_N_outputs (handed (vals,p) and counted result, N=1,2,7), sample() of both classes; compared with "
+          "RefDetector o distribution followed by heralding, herald removal, post-selection, min_detection. Random "
+          "draws may only be compared (any other use raises). Seed reproducibility with the real generators.",
+  "note": "convergence of empirical frequencies is inferred from the exact law plus i.i.d. draws of numpy's Generator.choice / "
+          "random.random (trusted), never observed; <=3 photons, <=4 modes"},
 ]
 _REASON = "check not built yet in this session (work in progress; not a claim that the technique cannot apply)"
 NOT_YET = [(f"C{i:02d}", _REASON) for i in range(1, 20) if f"C{i:02d}" not in {c["id"] for c in CHECKS}]
